@@ -26,6 +26,7 @@ F_hexenc = z3.Function("hexenc", ISEQ, ISEQ)  # bytes -> str (lowercase hex)
 F_hexdec = z3.Function("hexdec", ISEQ, ISEQ)  # str -> bytes
 P_hexok = z3.Function("hexok", ISEQ, z3.BoolSort())
 F_os2ip_le = z3.Function("os2ip_le", ISEQ, I)
+F_ieee = z3.Function("ieee754", I, I, z3.RealSort())  # (size in bytes, bit pattern as an unsigned integer) -> value
 F_os2ip_be = z3.Function("os2ip_be", ISEQ, I)
 F_i2osp_le = z3.Function("i2osp_le", I, I, ISEQ)
 F_i2osp_be = z3.Function("i2osp_be", I, I, ISEQ)
@@ -675,6 +676,17 @@ def install(env):
         f = F_os2ip_le if byteorder == "little" else F_os2ip_be
         r = f(t)
         it.ctx.assume(r >= 0)
+        # defining equations for the short lengths (ground instances; the length itself stays symbolic)
+        ln = z3.Length(t)
+        for k in range(0, 5):
+            tot = z3.IntVal(0)
+            rng = []
+            for j in range(k):
+                e = t[z3.IntVal(j)]
+                rng.append(z3.And(e >= 0, e <= 255))
+                w = j if byteorder == "little" else k - 1 - j
+                tot = tot + e * z3.IntVal(256 ** w)
+            it.ctx.assume(z3.Implies(ln == k, z3.And(r == tot, *rng)))
         return ops.mk_int(r)
 
     env.type_stubs.append((lambda fn: getattr(fn, "__name__", "") == "from_bytes" and getattr(fn, "__self__", None) is int, lambda it, fn, *a, **k: _from_bytes(it, *a, **k)))
@@ -757,7 +769,7 @@ def install(env):
             order = ">"
         items = []
         num = ""
-        sizes = {"x": 1, "B": 1, "b": 1, "H": 2, "h": 2, "I": 4, "i": 4, "L": 4, "l": 4, "Q": 8, "q": 8, "?": 1}
+        sizes = {"x": 1, "B": 1, "b": 1, "H": 2, "h": 2, "I": 4, "i": 4, "L": 4, "l": 4, "Q": 8, "q": 8, "?": 1, "f": 4, "d": 8}
         for ch in fmt:
             if ch.isdigit():
                 num += ch
@@ -789,6 +801,8 @@ def install(env):
             if ch == "?":
                 parts.append(z3.Unit(z3.If(ops.truth_term(v), z3.IntVal(1), z3.IntVal(0))))
                 continue
+            if ch in "fd":
+                raise Unsupported("struct.pack of a float (IEEE 754 encoding is not modelled)")
             if not ops.is_intlike(v):
                 it.raise_native(struct.error("required argument is not an integer"))
             vt = ops.int_term(v)
@@ -830,6 +844,9 @@ def install(env):
                 tot = tot + es[j] * z3.IntVal(256 ** j)
             if ch == "?":
                 out.append(ops.mk_bool(tot != 0))
+            elif ch in "fd":
+                # IEEE 754 decoding is not modelled: an uninterpreted function of the bit pattern
+                out.append(SReal(F_ieee(z3.IntVal(size), tot)))
             else:
                 if ch.islower():
                     tot = z3.If(tot >= z3.IntVal(1 << (8 * size - 1)), tot - z3.IntVal(1 << (8 * size)), tot)
@@ -837,8 +854,20 @@ def install(env):
             off += size
         return tuple(out)
 
+    def struct_unpack_from(it, fmt, buffer, offset=0):
+        if not isinstance(buffer, SV):
+            return it.native(struct.unpack_from, fmt, buffer, offset)
+        if isinstance(offset, SV):
+            raise Unsupported("unpack_from with symbolic offset")
+        order, items = struct_layout(fmt)
+        total = sum(s for _, s in items)
+        t = ops.bytes_term(buffer)
+        it.require_native(z3.Length(t) - offset >= total, lambda: struct.error(f"unpack_from requires a buffer of at least {total} bytes"))
+        return struct_unpack(it, fmt, SBytes(z3.Extract(t, z3.IntVal(offset), z3.IntVal(total)), False))
+
     stub(struct.pack, struct_pack)
     stub(struct.unpack, struct_unpack)
+    stub(struct.unpack_from, struct_unpack_from)
     env.type_stubs.append(
         (
             lambda fn: isinstance(getattr(fn, "__self__", None), struct.Struct) and fn.__name__ in ("pack", "unpack"),
